@@ -659,7 +659,9 @@ pub fn cont_case_strategy() -> BoxedStrategy<ContCase> {
             let n_fixed = s == Cont::Array || d == Cont::Array;
             let xs = if n_fixed {
                 let inner = val_strategy(&e, cfg);
-                prop::sample::select(ARR.to_vec()).prop_flat_map(move |n| proptest::collection::vec(inner.clone(), n..=n)).prop_map(Val::Seq).boxed()
+                // (sets collapse duplicates: the long lengths only between ordered containers, where the count is kept)
+                let sets = matches!(s, Cont::HashSet | Cont::BTreeSet) || matches!(d, Cont::HashSet | Cont::BTreeSet);
+                prop_oneof![12 => prop::sample::select(ARR.to_vec()), 1 => prop::sample::select(if sets { ARR.to_vec() } else { vec![63usize, 64, 65] })].prop_flat_map(move |n| proptest::collection::vec(inner.clone(), n..=n)).prop_map(Val::Seq).boxed()
             } else {
                 val_strategy(&Ty::Vec(Arc::new(e.clone())), cfg)
             };
